@@ -2,7 +2,7 @@ import ApolloModel.Proofs.ParserLossless
 import ApolloModel.Proofs.ParserType10
 import ApolloModel.Proofs.ParserValue9
 import ApolloModel.Proofs.ParserSel9
-import ApolloModel.Proofs.ParserComplete16
+import ApolloModel.Proofs.ParserComplete28
 import ApolloModel.Proofs.ParserDef19
 import ApolloModel.Proofs.ParserTermination8
 import ApolloModel.Proofs.ParserDoc5
@@ -630,6 +630,108 @@ example : (parse .document none 1 "query Q($v: [Int] = [1]) @d { a }".toList).er
 example : (parse .document none 1 "query Q($v: [[Int]]) { a }".toList).errors ≠ [] := by decide +kernel
 example : (parse .document none 2 "query Q($v: [[Int]]) { a }".toList).errors = [] := by decide +kernel
 example : (parse .document none 500 "fragment on on T { a }".toList).errors ≠ [] := by decide +kernel
+
+/-! ### completeness (growth 7): the whole Document grammar — descriptions, type-system definitions and extensions -/
+
+/-- **A type-system definition or extension through the document dispatch, acceptance is complete.**  `l : LooseDef`
+    is builderD's abstract syntax of what the definition parsers accept (the SAME set as in the soundness theorems:
+    `x = l.toks`; scalar / object / interface / union / enum / input object / directive / schema definitions with
+    optional description, and the seven extensions; separated lists with optional leading `&` / `|`).
+    `looseFit b l` are the exact guards: every directive list and default value is `Const`, within the budget
+    (`vdepth ≤ b`), type references within the budget (`tyDepth ≤ b`), enum values are not `true`/`false`/`null`,
+    directive locations are among the nineteen names, a schema definition has ≥ 1 root operation type (all named), an
+    extension has ≥ 1 component; empty braces cannot be written at all (`tBraced`).  `looseFollow l q`: the token
+    after the definition must not continue it (`@`, `(`, `{` after a definition without body, `&`/`|` after a list,
+    the Name `implements` after an object / interface type without fields).  From a state whose buffered current
+    token is the first token of any spelling of `l.toks`, the selected definition parser consumed exactly the
+    spelling and reported no error. -/
+theorem type_system_definition_accept_complete (n : Nat) (s s' : PState) (t : Tok) (tl : List Tok) (l : LooseDef)
+    (q0 : Tok) (rest : List Tok) (w : TW s) (hlex : LexQ (Toks s)) (hcur : s.current = some t)
+    (hfit : looseFit (s.recLimit - s.recCur) l) (hfollow : looseFollow l q0)
+    (hspell : (sig (t :: tl)).map astOfV = l.toks.map some) (hhead : isIgnoredKind t.kind = false)
+    (ht : Toks s = (t :: tl) ++ q0 :: rest) (hq : isIgnoredKind q0.kind = false)
+    (h : (documentDispatch n t.kind).run s = .ok () s') : Toks s' = q0 :: rest ∧ (Doomed s' ↔ Doomed s) := by
+  obtain ⟨e, t2⟩ := Parse.loose_dispatch_comp n s s' t tl l q0 rest w hlex hcur hfit hfollow
+    ⟨hspell, by intro hd tl' e; injection e with e _; subst e; exact hhead⟩ ht hq h
+  exact ⟨t2, e.doom⟩
+
+/-- **document_accept_complete.**  Every Document of the grammar within the recursion limit parses with ZERO errors:
+    `its` is a non-empty list of builderC's `DocItem`s (operation / fragment definitions in the long or shorthand
+    form, type-system definitions and extensions — with descriptions where the grammar allows them, and with the
+    leading-separator liberty of the code), every item satisfies its exact guard `itemFit rl` (`execFit` for
+    executable definitions, `looseFit` for the type system), and `DocFollowOk its`: every type-system definition may be
+    followed by the first token of the next definition (in particular a definition that ends without its `{ … }` body
+    is not followed by a shorthand query).  If the source has no lexer error and its significant tokens — arbitrary
+    ignored tokens anywhere, also in front — are `docToks its` followed by EOF, the parse reports no error.  No
+    hypothesis on the outcome (C01 `parse_terminates`, `parse_no_panic`).
+    Not in `itemFit` (so not covered): a root operation type without its named type (the accepted-by-the-code
+    liberty that is a known finding). -/
+theorem document_accept_complete (rl : Nat) (src : Parse.Str) (its : List DocItem) (ts : List Tok) (e : Tok)
+    (hclean : LexClean src) (hsig : sig (srcToks src) = ts ++ [e]) (he : e.kind = .eof)
+    (hx : ts.map astOfV = (docToks its).map some)
+    (hne : its ≠ []) (hfit : ∀ i ∈ its, itemFit rl i) (hfollow : DocFollowOk its) :
+    (parse .document none rl src).errors = [] :=
+  Parse.parseDocument_complete_items rl src its ts e hclean hsig he hx hne hfit hfollow
+
+/-- the completeness language lies inside builderC's soundness language: `itemFit` implies `DocItem.ok` -/
+theorem document_complete_language_is_sound_language (rl : Nat) (its : List DocItem) (h : ∀ i ∈ its, itemFit rl i) :
+    ∀ i ∈ its, i.ok := fun i hi => Parse.itemFit_ok rl i (h i hi)
+
+/-- **The two inclusions that bracket the accepted language** (for sources without lexer error, no token limit):
+    `{docToks its | itemFit, DocFollowOk}` ⊆ accepted ⊆ `{docToks its | ok}`.  The right inclusion is builderC's
+    `document_accepted_is_in_grammar`; it is STRICT (witnesses below: `DocItem.ok` says nothing about the values, enum
+    value names, the budget or what follows), so `ok` does not characterise acceptance.  An `iff` needs the soundness
+    lemmas to export `itemFit` and `DocFollowOk`; what the parser rejects outside `itemFit` is shown by the
+    kernel-evaluated witnesses, guard by guard. -/
+theorem document_accept_sandwich (rl : Nat) (src : Parse.Str) (ts : List Tok) (e : Tok)
+    (hclean : LexClean src) (hsig : sig (srcToks src) = ts ++ [e]) (he : e.kind = .eof) :
+    ((∃ its : List DocItem, its ≠ [] ∧ (∀ i ∈ its, itemFit rl i) ∧ DocFollowOk its ∧ ts.map astOfV = (docToks its).map some) →
+      (parse .document none rl src).errors = []) ∧
+    ((parse .document none rl src).errors = [] →
+      ∃ its : List DocItem, its ≠ [] ∧ (∀ i ∈ its, i.ok) ∧ ts.map astOfV = (docToks its).map some) := by
+  constructor
+  · rintro ⟨its, hne, hfit, hfol, hx⟩
+    exact document_accept_complete rl src its ts e hclean hsig he hx hne hfit hfol
+  · intro herr
+    obtain ⟨root, ho⟩ := Parse.parseDocument_tree none rl src
+    obtain ⟨_, ts', e', its, h1, h2, h3, h4, h5, _⟩ := Parse.document_accepted_items rl src root ho herr
+    have : ts' = ts := by
+      have h := hsig.symm.trans h1
+      have hl := congrArg List.length h
+      simp at hl
+      exact ((List.append_inj h hl).1).symm
+    subst this
+    exact ⟨its, h3, h4, h5⟩
+
+/-- strict corollary: a document printed by C08's `tDefinition` (no liberty used: `strictItems its = some items`) within
+    the guards is accepted, whatever the ignored tokens -/
+theorem strict_document_accept_complete (rl : Nat) (src : Parse.Str) (its : List DocItem) (items : List Ast.Item)
+    (ts : List Tok) (e : Tok) (hstrict : strictItems its = some items)
+    (hclean : LexClean src) (hsig : sig (srcToks src) = ts ++ [e]) (he : e.kind = .eof)
+    (hx : ts.map astOfV = (Ast.itemsToks items).map some)
+    (hne : its ≠ []) (hfit : ∀ i ∈ its, itemFit rl i) (hfollow : DocFollowOk its) :
+    (parse .document none rl src).errors = [] := by
+  rw [← (Parse.strictItems_toks its items hstrict).1] at hx
+  exact document_accept_complete rl src its ts e hclean hsig he hx hne hfit hfollow
+
+-- every guard is necessary (kernel-evaluated on the model); the left input of each pair is a `docToks` of `ok` items
+-- (so it is in the soundness language) and is REJECTED, the right one satisfies the guard and is accepted
+example : (parse .document none 500 "enum E { true }".toList).errors ≠ [] ∧ (parse .document none 500 "enum E { A }".toList).errors = [] := by decide +kernel
+example : (parse .document none 500 "type T { f(a: Int = $v): Int }".toList).errors ≠ [] ∧ (parse .document none 500 "type T { f(a: Int = 1): Int }".toList).errors = [] := by decide +kernel
+example : (parse .document none 500 "input I { a: Int = 1 @d(x: $v) }".toList).errors ≠ [] := by decide +kernel
+example : (parse .document none 500 "directive @d on FOO".toList).errors ≠ [] ∧ (parse .document none 500 "directive @d(a: Int) repeatable on | QUERY | FIELD".toList).errors = [] := by decide +kernel
+example : (parse .document none 500 "extend type T".toList).errors ≠ [] ∧ (parse .document none 500 "extend type T @d".toList).errors = [] := by decide +kernel
+example : (parse .document none 500 "extend scalar S".toList).errors ≠ [] ∧ (parse .document none 500 "extend schema".toList).errors ≠ [] ∧ (parse .document none 500 "extend union U".toList).errors ≠ [] := by decide +kernel
+example : (parse .document none 500 "schema @d".toList).errors ≠ [] ∧ (parse .document none 500 "schema { query: Q mutation: M }".toList).errors = [] := by decide +kernel
+-- the follow guard: `type T` followed by the shorthand query `{a}` is read as a fields definition; after `scalar S` it is fine
+example : (parse .document none 500 "type T {a}".toList).errors ≠ [] ∧ (parse .document none 500 "scalar S {a}".toList).errors = [] := by decide +kernel
+-- the budget: a list type costs one level, a list default value too; no brace level is charged for type-system bodies
+example : (parse .document none 0 "type T { a: [Int] }".toList).errors ≠ [] ∧ (parse .document none 1 "type T { a: [Int] }".toList).errors = [] := by decide +kernel
+example : (parse .document none 0 "type T { a(x: Int = [1]): Int }".toList).errors ≠ [] ∧ (parse .document none 0 "type T { a: Int }".toList).errors = [] := by decide +kernel
+-- accepted within the guards: descriptions, leading separators, definitions without body, any keyword as a name
+example : (parse .document none 500 "\"d\" type T \"e\" scalar S extend enum E { A } {a}".toList).errors = [] := by decide +kernel
+example : (parse .document none 500 "type T implements & A & B @d { a: [Int!]! } union U = | A | B union V enum E".toList).errors = [] := by decide +kernel
+example : (parse .document none 500 "interface I implements A { a: Int } type implements { a: Int }".toList).errors = [] := by decide +kernel
 
 end Executable
 
